@@ -43,6 +43,8 @@ Print Assumptions c01_status_range.
 (* non-vacuity: a three-lint certificate registry (one body panics, one warns, one is inapplicable) meets the
    hypotheses and yields a complete set with flags (notices, warnings, errors, fatals) = (false, true, false, true) *)
 From ZL Require Import Framework.Script.
+From Coq Require Import String.
+Open Scope string_scope.
 Example c01_example :
   let mk n app exe := mkScript (mkMeta (s2b n) [] [] (s2b "RFC5280") zeroT zeroT) NewOk CfgNone app exe in
   let ss := [mk "e_a" AppTrue (ExePanic (s2b "boom")); mk "w_b" AppTrue (ExeRes Warn []); mk "n_c" AppFalse (ExeRes Pass [])] in
